@@ -243,12 +243,12 @@ func errSliceFields(t types.Type, prefix string, out map[*types.Var]string) {
 		f := st.Field(i)
 		if sl, ok := f.Type().Underlying().(*types.Slice); ok {
 			if types.TypeString(sl.Elem(), nil) == "error" {
-				out[f] = prefix + f.Name()
+				out[f] = prefix + fldName(f)
 			}
 		}
 		if f.Embedded() {
 			if _, isStruct := f.Type().Underlying().(*types.Struct); isStruct {
-				errSliceFields(f.Type(), prefix+f.Name()+".", out)
+				errSliceFields(f.Type(), prefix+fldName(f)+".", out)
 			}
 		}
 	}
@@ -714,8 +714,8 @@ func rulePanosMarker(p *Prog, m *Model, r *Report, t types.Type, isMarker func(*
 						dom = true
 					}
 				}
-				r.add("R06.4b", "panos-marker|"+shortName(fn)+"|"+fv.Name(), p.ipos(st),
-					"store to change list "+fv.Name()+" is dominated by the vsys marker check", dom,
+				r.add("R06.4b", "panos-marker|"+shortName(fn)+"|"+fldName(fv), p.ipos(st),
+					"store to change list "+fldName(fv)+" is dominated by the vsys marker check", dom,
 					"changes are recorded for a vsys whose display-name was not checked for 'netspoc'")
 				if dom {
 					n++
@@ -844,8 +844,8 @@ func ruleOptionalBanner(p *Prog, m *Model, r *Report) {
 					})
 					// short-circuit && : cond block of `rx != nil && rx.Find..` -- the use sits in the
 					// block reached by the true edge of the nil test, which gatedBy handles.
-					r.add("R06.5", "nil-guard|"+shortName(fn)+"|"+fv.Name(), p.ipos(ref),
-						"use of optional Config."+fv.Name()+" is guarded by != nil", guard != nil,
+					r.add("R06.5", "nil-guard|"+shortName(fn)+"|"+fldName(fv), p.ipos(ref),
+						"use of optional Config."+fldName(fv)+" is guarded by != nil", guard != nil,
 						"with the option not configured this dereferences nil: the run crashes instead of skipping the check")
 				}
 			}
@@ -1586,7 +1586,7 @@ func ruleConfigNotRebuilt(p *Prog, r *Report) {
 	st, _ := cfgT.Underlying().(*types.Struct)
 	bannerIdx := -1
 	for i := 0; st != nil && i < st.NumFields(); i++ {
-		if st.Field(i).Name() == "CheckBanner" {
+		if fldName(st.Field(i)) == "CheckBanner" {
 			bannerIdx = i
 		}
 	}
